@@ -71,24 +71,8 @@ EXPLANATION = ('Theorems (Props/C10.v): the generated parameter guards imply the
 ASSUMPTIONS = ['numdifftools Hessians of SDevice/TDevice are finite whenever the cost is (oracle: compiled / numerical code outside the model)']
 warnings.simplefilter('ignore')
 
-# reported to the lead by this check; not yet in known_findings.json
-PENDING = [
-  {'property': 'C10', 'id': 'abc-zero-base-negative-power',
-   'what': 'with a = 0 (the default) ABCCost raises ZeroDivisionError (0.0 ** negative) on the upper bound: _hess for every exponent b < 2 other than 1 '
-           '(b = 1 was repaired by 6ab9ed2), _deriv for b < 1: IDevice("i",2,(0,2),a=0,b=1.5,c=1).hess(np.array([2.,1.]))',
-   'witness': {'cls': 'IDevice', 'n': 2, 'bounds': [[0, 2], [0, 2]], 'a': 0, 'b': 1.5, 'c': 1, 's': [2, 1]}},
-  {'property': 'C10', 'id': 'gdevice-without-cost-coeffs',
-   'what': 'GDevice("g",2,(-1,0)) is accepted without cost_coeffs and then cost/deriv/hess raise TypeError (NoneType is not callable)',
-   'witness': {'cls': 'GDevice', 'n': 2}},
-  {'property': 'C10', 'id': 'cdevice2-ranges-not-covering',
-   'what': 'CDevice2 accepts several cumulative ranges whose last end is not the horizon; cost/deriv/hess then raise ValueError (reshape): '
-           'CDevice2("c",3,(0,1),[(0,1,0,1),(0,1,1,2)]).cost(...)',
-   'witness': {'cls': 'CDevice2', 'n': 3}},
-  {'property': 'C10', 'id': 'windowdevice-zero-total-flow',
-   'what': 'WindowDevice.cost/deriv raise ZeroDivisionError (np.average: weights sum to zero) at every flow whose total is 0, e.g. the all-zero flow: '
-           'WindowDevice("w",3,(0,1),2).cost(np.zeros(3), 0)',
-   'witness': {'cls': 'WindowDevice', 'n': 3}},
-]
+PENDING = []     # findings reported by this check that are not yet in known_findings.json (none at the moment)
+ABC = 'abc-power-singular-at-upper-bound'
 
 
 def open_ids():
@@ -132,9 +116,14 @@ def tweak(rng, L, beyond=False):
       L['t_range'] = F(0)
     elif r < .4:
       L['c'] = F(0)
-  elif cls == 'GDevice' and rng.random() < .3:
+  elif cls == 'GDevice':
+    r = rng.random()
     cc = L['cost_coeffs']
-    L['cost_coeffs'] = [[F(0)] * len(r) for r in cc] if isinstance(cc[0], list) else [F(0)] * len(cc)
+    if r < .3:
+      L['cost_coeffs'] = [[F(0)] * len(r_) for r_ in cc] if isinstance(cc[0], list) else [F(0)] * len(cc)
+    elif r < .45:
+      L['cost_coeffs'] = [F(0)]            # constructed WITHOUT cost_coeffs (see build): the class default is the zero polynomial
+      L['no_coeffs'] = True
   return L
 
 
@@ -180,7 +169,7 @@ def gen_leaf_case(rng, k, tier):
 
 def gen_window_case(rng, k):
   n = 1 + k % 4
-  lo = [core.dy(rng, F(1, 4), 1, 2) for _ in range(n)]
+  lo = [F(0)] * n if k % 5 == 0 else [core.dy(rng, 0, 1, 2) for _ in range(n)]
   b = [(l, l + (F(0) if (k // 4) % 3 == 2 else core.dy(rng, F(1, 2), 2, 2))) for l in lo]
   cb = None if k % 2 else (sum(x for x, _ in b), sum(y for _, y in b) + 1)
   s = [x if k % 3 == 0 else (y if k % 3 == 1 else (x + y) / 2) for x, y in b]
@@ -199,7 +188,7 @@ def gen_cases(rng, tier):
     S = tg.gen_matrix(rng, T, ['lower', 'upper', 'mixed', None, 'free'][k % 5])
     out.append({'kind': 'tree', 'tree': T, 'S': S, 'p': tg.gen_tree_price(rng, T)})
   ids = open_ids()
-  if 'abc-zero-base-negative-power' in ids:
+  if ABC in ids:
     keep = []
     for c in out:
       if c['kind'] == 'leaf' and leaf_in_abc_region(c['leaf'], c['s']):
@@ -284,7 +273,10 @@ def observe_dev(d, s, p):
 def build(c):
   import device_kit as dk
   if c['kind'] == 'leaf':
-    return lg.build(c['leaf'])
+    L = c['leaf']
+    if L.get('no_coeffs'):
+      return dk.GDevice(L.get('id', 'd'), L['n'], np.array(fl([list(b) for b in L['bounds']])), lg.py_cbounds(L['cbounds'], L.get('cb_kind')))
+    return lg.build(L)
   if c['kind'] == 'win':
     cb = None if c['cb'] is None else (float(c['cb'][0]), float(c['cb'][1]))
     return dk.WindowDevice('w', c['n'], np.array(fl([list(b) for b in c['bounds']])), float(c['w']), cbounds=cb, c=float(c['c']))
@@ -368,13 +360,11 @@ def case_from_json(j):
 # ---------------------------------------------------------------------------------------------------
 def in_open_region(c):
   ids = open_ids()
-  if 'abc-zero-base-negative-power' in ids:
+  if ABC in ids:
     if c['kind'] == 'leaf' and leaf_in_abc_region(c['leaf'], c['s']):
       return True
     if c['kind'] == 'tree' and tree_in_abc_region(c['tree'], c['S']):
       return True
-  if 'windowdevice-zero-total-flow' in ids and c['kind'] == 'win' and sum(c['s']) == 0:
-    return True
   return False
 
 
@@ -429,29 +419,30 @@ def case_name(c):
 
 
 def finding_matches(f, c):
+  if f.get('id') != ABC:
+    return False
+  if c['kind'] == 'leaf':
+    return leaf_in_abc_region(c['leaf'], c['s'])
+  if c['kind'] == 'tree':
+    return tree_in_abc_region(c['tree'], c['S'])
   return False
 
 
 def witness_fails(f):
-  return True
-
-
-def pending_repros():
-  """the four reported defects, reproduced on the implementation (used by the report, not by the verdict)"""
+  """replay the stored witness of an open finding on the implementation"""
   import device_kit as dk
-  out = {}
-
-  def t(f):
-    try:
-      f()
-      return None
-    except Exception as e:
-      return '%s: %s' % (type(e).__name__, e)
-  out['abc-zero-base-negative-power'] = t(lambda: dk.IDevice('i', 2, (0, 2), a=0, b=1.5, c=1).hess(np.array([2., 1.])))
-  out['gdevice-without-cost-coeffs'] = t(lambda: dk.GDevice('g', 2, (-1, 0)).cost(np.array([-.5, -.5]), np.zeros(2)))
-  out['cdevice2-ranges-not-covering'] = t(lambda: dk.CDevice2('c', 3, (0, 1), [(0, 1, 0, 1), (0, 1, 1, 2)]).cost(np.array([.5, .5, .5]), np.zeros(3)))
-  out['windowdevice-zero-total-flow'] = t(lambda: dk.WindowDevice('w', 3, (0, 1), 2).cost(np.zeros(3), 0))
-  return out
+  w = f.get('witness', {})
+  try:
+    if f.get('id') == ABC:
+      d = dk.IDevice('i', w['n'], np.array(w['bounds'], dtype=float), a=w['a'], b=w['b'], c=w['c'])
+      s = np.array(w.get('s', [b_[1] for b_ in w['bounds']]), dtype=float)
+      return not (finite(d.hess(s)) and finite(d.deriv(s, np.zeros(len(s)))))
+    if f.get('id') == 'tworatio-ratios-none':
+      t = dk.TwoRatioMFDeviceSet(dk.Device('a', 2, (0, 1)), ['e', 'h'], None)
+      return not all(finite(c['fun'](np.zeros(4))) for c in t.constraints)
+  except Exception:
+    return True
+  return True
 
 
 def search(rng, budget, seeds, findings):
